@@ -182,6 +182,11 @@ func (p cfgPath) GetValue(cfg *Config, opt *options) (value, Error) {
 	field := fields[0]
 	v, err := field.GetValue(opt, cur)
 	if err != nil {
+		if causedByCycle(err) {
+			// the walk has re-entered a reference being evaluated: no missing
+			// setting a default value could stand in for
+			return nil, err
+		}
 		return nil, raiseMissing(cfg, field.String())
 	}
 	return v, nil
@@ -190,7 +195,7 @@ func (p cfgPath) GetValue(cfg *Config, opt *options) (value, Error) {
 func (n namedField) GetValue(opts *options, elem value) (value, Error) {
 	cfg, err := elem.toConfig(opts)
 	if err != nil {
-		return nil, raiseExpectedObject(opts, elem)
+		return nil, raiseNoObject(opts, elem, err)
 	}
 
 	v, _ := cfg.fields.get(n.name)
@@ -204,7 +209,7 @@ func (i idxField) GetValue(opts *options, elem value) (value, Error) {
 			return elem, nil
 		}
 
-		return nil, raiseExpectedObject(opts, elem)
+		return nil, raiseNoObject(opts, elem, err)
 	}
 
 	arr := cfg.fields.array()
